@@ -455,6 +455,8 @@ def rule_assumes(ctx, R):
                         ok, why = True, "D3: len < len + 1"
                     elif (not pol) and is_len(x) and contains(y, lambda t: t[0] == "call" and ("resolve_entity" in t[1] or "resolve_direct" in t[1])):
                         ok, why = True, "D4: resolved dense index <= len"
+                    elif pol and is_len(y) and contains(x, lambda t: t[0] == "call" and ("resolve_entity" in t[1] or "resolve_direct" in t[1])):
+                        ok, why = True, "D4: resolved dense index < len (the resolvers accept only dense < len)"
                 key = "%s|%s" % (fam(path), re_fold(sig))
                 for rid in ("C03-R9", "C19-R7"):
                     R.check(ok, rid, key, "assumption discharged -- " + why,
